@@ -111,11 +111,23 @@ def main(tier, seed):
     for name, raw in seeds():
         for label, b, lenient in mutations(name, raw, rng, tier):
             muts.append(('%s:%s' % (name, label), b, lenient))
+    # well-formed PDUs whose text fields are the classic worst cases of pattern matching (a long run of digits, dotted
+    # digits, padding or letters and the one character that does not fit at the very end): nothing the peer sends may
+    # keep the provider busy for ever
+    import pdu_driver
+    from pynetdicom2 import pdu as _pdu, userdataitems as _ud
+    for k, nm in enumerate(pdu_driver.PATHOLOGICAL_NAMES if tier != 'quick' else pdu_driver.PATHOLOGICAL_NAMES[:5]):
+        txt = nm.decode('ascii')
+        muts.append(('rq:pathological-text-%d' % k, pd.mk_rq(contexts=((1, txt), (3, pd.CT_STORAGE))).encode(), False))
+        ac_items = [_pdu.ApplicationContextItem(txt), _pdu.PresentationContextItemAC(1, 0, _pdu.TransferSyntaxSubItem(txt)),
+                    _pdu.UserInformationItem([_ud.MaximumLengthSubItem(16384), _ud.ImplementationClassUIDSubItem(txt),
+                                              _ud.ImplementationVersionNameSubItem(txt[:16])])]
+        muts.append(('ac:pathological-text-%d' % k, _pdu.AAssociateAcPDU(txt[:16], txt[-16:], ac_items).encode(), False))
     for _ in range(30 if tier == 'quick' else 300):
         muts.append(('random', bytes(rng.randint(0, 255) for _ in range(rng.choice([1, 5, 6, 7, 16, 60]))), False))
     muts.append(('empty_then_close', b'', False))
     for plabel, acceptor, pre in prefixes():
-        pool = muts if tier != 'quick' else [m for m in muts if rng.random() < 0.45]
+        pool = muts if tier != 'quick' else [m for m in muts if 'pathological' in m[0] or rng.random() < 0.45]
         for mlabel, b, lenient in pool:
             ops = list(pre) + ([('seg', b)] if b else []) + tail
             cases.append(dict(label=[plabel, mlabel], acceptor=acceptor, ops=ops, lenient=lenient))
